@@ -588,7 +588,7 @@ impl Tokens
 			{
 				format!(
 					"<{base_token:?} src={:?} />",
-					get_source().trim_matches('"')
+					strip_quotes(get_source())
 				)
 			}
 			_ => format!("<{base_token:?} />"),
@@ -616,4 +616,14 @@ impl Tokens
 
 		Some(Errors { errors })
 	}
+}
+
+/// The text between the quotes of a string literal token.
+/// (Not `trim_matches('"')`: that also strips an escaped quote at the end.)
+pub(crate) fn strip_quotes(source_of_literal: &str) -> &str
+{
+	let inner = source_of_literal;
+	let inner = inner.strip_prefix('"').unwrap_or(inner);
+	let inner = inner.strip_suffix('"').unwrap_or(inner);
+	inner
 }
